@@ -2,9 +2,10 @@
 """Import the round-2 seeded changes from /tmp/mut2 into /verif/seeded/<ID>-r2m<k>/ with the
 confirmation (tools/confirm_mutant.sh) and detection (tools/mutant.sh) results."""
 import json, os, re, shutil, sys
-root = '/tmp/mut2'
+root = os.environ.get('MUTROOT', '/tmp/mut2')
+rnd = int(os.environ.get('ROUND', '2'))
 confirm = {}
-for f in ['confirm_a.txt', 'confirm_b.txt', 'confirm_c.txt']:
+for f in ['confirm_a.txt', 'confirm_a2.txt', 'confirm_b.txt', 'confirm_c.txt']:
     p = os.path.join(root, f)
     if not os.path.exists(p): continue
     for line in open(p):
@@ -20,16 +21,16 @@ for line in open(os.path.join(root, sys.argv[1] if len(sys.argv) > 1 else 'resul
 head = os.popen('git -C /repo log --format=%h -1').read().strip()
 for (pid, mk), det in sorted(detected.items()):
     src = os.path.join(root, pid, mk)
-    dst = f'/verif/seeded/{pid}-r2{mk}'
+    dst = f'/verif/seeded/{pid}-r{rnd}{mk}'
     os.makedirs(dst, exist_ok=True)
     for f in ['patch.diff', 'demo.rs', 'demo.md']:
         if os.path.exists(os.path.join(src, f)): shutil.copy(os.path.join(src, f), os.path.join(dst, f))
     if os.path.exists(os.path.join(src, 'patch.rebased.diff')):
         shutil.copy(os.path.join(src, 'patch.rebased.diff'), os.path.join(dst, 'patch.rebased.diff'))
     meta = json.load(open(os.path.join(src, 'meta.json')))
-    meta['round'] = 2
+    meta['round'] = rnd
     meta['author_ran'] = meta.pop('ran', meta.get('author_ran'))
-    meta['written_against_repo_commit'] = 'd418550'
+    meta['written_against_repo_commit'] = 'd418550' if rnd == 2 else ('2a472e8' if pid <= 'C06' else ('a1a1e41' if pid <= 'C12' else '8551cf1'))
     meta['checks_run_against_repo_commit'] = head
     meta['confirmed_by_me'] = {
         'how': 'tools/confirm_mutant.sh in a scratch worktree of /repo (outside /repo and /verif): git apply; cargo build --workspace; cargo test --workspace --no-fail-fast --offline; demo as ts-rs/tests/seeded_demo.rs with the change and without it (with the cargo features the demo names)',
